@@ -92,6 +92,27 @@ def _shapes():
             outs.append(jax.lax.switch(i, [lambda: normal.sample(0.0, 1.0), lambda: normal.sample(0.0, 1.0) * 1.0, lambda: normal.sample(0.0, 1.0) + 0.0]))
         return outs
 
+    def scan_then_sites():
+        c, ys = jax.lax.scan(body, 0.0, None, length=3)
+        a = normal.sample(0.0, 1.0)
+        b = normal.sample(0.0, 1.0)
+        d = normal.sample(0.0, 1.0)
+        return ys, a, b, d
+
+    def site_scan_cond_site():
+        a = normal.sample(0.0, 1.0)
+        c, ys = jax.lax.scan(body, a, None, length=2)
+        x = jax.lax.cond(a > 0.0, lambda: normal.sample(0.0, 1.0), lambda: normal.sample(0.0, 1.0) * 1.0)
+        c2, zs = jax.lax.scan(body, c, None, length=2)
+        b = normal.sample(0.0, 1.0)
+        return a, ys, x, zs, b
+
+    def cond_then_sites():
+        x = jax.lax.cond(True, lambda: normal.sample(0.0, 1.0), lambda: normal.sample(0.0, 1.0) * 1.0)
+        a = normal.sample(0.0, 1.0)
+        b = normal.sample(0.0, 1.0)
+        return x, a, b
+
     def vmap_axis_size():
         return modular_vmap(lambda: (normal.sample(0.0, 1.0), normal.sample(0.0, 1.0)), in_axes=(), axis_size=3)()
 
@@ -106,6 +127,9 @@ def _shapes():
         "cond_in_scan": (cond_in_scan, 8, True),
         "switch3": (switch3, 3, False),
         "vmap_axis_size": (vmap_axis_size, 6, False),
+        "scan_then_sites": (scan_then_sites, 6 + 3, True),
+        "site_scan_cond_site": (site_scan_cond_site, 1 + 4 + 1 + 4 + 1, True),
+        "cond_then_sites": (cond_then_sites, 3, False),
     }
     # generative functions of the family (continuous sites only are compared for distinctness)
     for pname in ("repeat_chain", "vmap_dist", "scan_c", "vmap_indep", "scan_vmap", "vmap_scan", "cond_c", "repeat_vecsite"):
@@ -324,7 +348,7 @@ def items(tier):
     nk = 16 if tier == "quick" else 128
     its = []
     names = [
-        "seq", "shaped", "scan1", "nested_scan", "vmap_of_scan", "scan_of_vmap", "cond_in_scan", "switch3", "vmap_axis_size",
+        "seq", "shaped", "scan1", "nested_scan", "scan_then_sites", "site_scan_cond_site", "cond_then_sites", "vmap_of_scan", "scan_of_vmap", "cond_in_scan", "switch3", "vmap_axis_size",
         "gen:repeat_chain", "gen:vmap_dist", "gen:scan_c", "gen:vmap_indep", "gen:scan_vmap", "gen:vmap_scan", "gen:cond_c", "gen:repeat_vecsite",
         "chain_mh", "chain_mala_2chains", "rejuvenation_smc",
     ]
@@ -342,7 +366,7 @@ def main(tier, seed):
     if only:
         its = [it for it in its if only in str(it)]
     res, errors = H.fan_out("checks.c07", "work", its, tier, seed)
-    rule = "20 program shapes x root keys (16 quick / 128 thorough) x {jit, eager(first 2 keys)}: all sampler invocations recorded at the seam; states = executions analysed, transitions = real executions"
+    rule = "23 program shapes x root keys (16 quick / 128 thorough) x {jit, eager(first 2 keys)}: all sampler invocations recorded at the seam; states = executions analysed, transitions = real executions"
     return H.finish(
         PROP, tier, seed, "model_checking", res, errors, t0, rule,
         ["independence of distinct leaves of the threefry split/fold_in tree is the PRNG's contract (trusted); the law of TFP's samplers over keys is not enumerable (2^64 keys): each draw is shown to be TFP's own draw for the site's own key and parameters", "key-derivation linearity is observed eagerly on scan-free shapes only (inside lax.scan keys are tracers)"],
